@@ -311,6 +311,14 @@ func (r *replicateChannelManager) StartReadCollection(ctx context.Context, db *m
 		log.Info("the collection is dropped", zap.Int64("collection_id", info.ID))
 		return nil
 	}
+	r.collectionLock.RLock()
+	_, replicated := r.replicateCollections[info.ID]
+	r.collectionLock.RUnlock()
+	if replicated {
+		// a second notification about a collection that is being replicated has no further effect
+		log.Info("the collection is already replicated", zap.String("collection_name", info.Schema.Name))
+		return nil
+	}
 
 	var targetInfo *model.CollectionInfo
 	var err error
